@@ -88,6 +88,23 @@ class _FreezeOnIter:
         return len(self.ds)
 
 
+BELOW = {
+    'sorted': lambda d: d.sort(lambda x: -x),
+    'reversed': lambda d: d[::-1],
+    'shuffled-once': lambda d: d.shuffle(False, rng=np.random.RandomState(3)),
+    'frozen-reshuffle': lambda d: d.shuffle(True, rng=np.random.RandomState(4)).copy(freeze=True),
+    'shard': lambda d: d.shard(2, 0) if len(d) >= 2 else d,
+    'efilter': lambda d: d.filter(lambda x: True, lazy=False),
+}
+ABOVE = {
+    'none': lambda d: d,
+    'frozen-copy': lambda d: d.copy(freeze=True),
+    'sample': lambda d: d.random_choice(max(1, len(d) - 1), rng_state=np.random.RandomState(5))
+    if len(d) else d,
+    'sorted-again': lambda d: d.sort(lambda x: x),
+}
+
+
 def is_perm(out, n):
     return sorted(out) == list(range(n))
 
@@ -140,6 +157,37 @@ def check_single(ld, kind, n, b, rngkind, seed, res, path='direct'):
                               sig={'shuffle': kind})
         except BaseException as e:
             res.violation('items-raised', case, exc_sig(e), sig={'shuffle': kind})
+        # ... also when the shuffle sits on a dataset that is a selection
+        # already (sorted, reversed, shuffled once, a frozen reshuffle, a shard)
+        # and below a tile / sample of it
+        if seed % 4 == 0:
+            for below in BELOW:
+                for above in ABOVE:
+                    try:
+                        base = ld.new({f'k{i}': i for i in range(n)})
+                        base = BELOW[below](base)
+                        want = sorted((k, v) for k, v in zip(base.keys(), base)) \
+                            if below != 'shard' else None
+                        rng = make_rng(rngkind, seed)
+                        kw = {} if rng is None else {'rng': rng}
+                        if kind == 'once':
+                            dd = base.shuffle(False, **kw)
+                        elif kind == 'reshuffle':
+                            dd = base.shuffle(True, **kw)
+                        else:
+                            dd = base.shuffle(True, buffer_size=b, **kw)
+                        dd = ABOVE[above](dd)
+                        pairs = list(dd.items())
+                    except BaseException as e:
+                        res.count('stacked_selection_items_not_offered')
+                        continue
+                    res.count('stacked_selection_items_checked')
+                    if any(k != f'k{v}' for k, v in pairs) or \
+                            (above == 'none' and want is not None and sorted(pairs) != want):
+                        res.violation('items-mispaired',
+                                      {**case, 'below': below, 'above': above},
+                                      {'items': pairs}, sig={'shuffle': kind, 'stacked': True})
+                        return
 
 
 # ways of saying "without replacement" (the parameter is documented as a bool)
